@@ -32,6 +32,9 @@ var Harnesses = map[string]func(){
 	"verifh/hval.ReflectModelSelfTest": hval.ReflectModelSelfTest,
 	"verifh/hfmt.StringValue":          hfmt.StringValue,
 	"verifh/hfmt.Description":          hfmt.Description,
+	"verifh/hfmt.QueryRoundTrip":       hfmt.QueryRoundTrip,
+	"verifh/hfmt.SchemaRoundTrip":      hfmt.SchemaRoundTrip,
+	"verifh/hfmt.LoadedSchema":         hfmt.LoadedSchema,
 	"verifh/hval.SplitGapSelfTest":     hval.SplitGapSelfTest,
 	"verifh/hval.FrozenWriteSelfTest":  hval.FrozenWriteSelfTest,
 }
